@@ -40,9 +40,12 @@ def _limit():
 
 def sh(cmd, timeout, cwd=None, limit=True):
     t0 = time.time()
+    if limit:
+        # memory cap through the shell (a preexec_fn forces a full fork of this multi-threaded
+        # process for every child, which dominated the run time)
+        cmd = ["/bin/sh", "-c", "ulimit -v %d; exec timeout -k 5 %d \"$@\"" % (MEM_KB, int(timeout) + 30), "sh"] + list(cmd)
     try:
-        p = subprocess.run(cmd, stdout=subprocess.PIPE, stderr=subprocess.PIPE, timeout=timeout, cwd=cwd,
-                           preexec_fn=_limit if limit else None)
+        p = subprocess.run(cmd, stdout=subprocess.PIPE, stderr=subprocess.PIPE, timeout=timeout, cwd=cwd)
         return p.returncode, p.stdout.decode("utf-8", "replace"), p.stderr.decode("utf-8", "replace"), time.time() - t0
     except subprocess.TimeoutExpired as e:
         return -9, (e.stdout or b"").decode("utf-8", "replace"), "TIMEOUT after %ss" % timeout, time.time() - t0
@@ -210,7 +213,8 @@ def run_property(prop, tier, builders, seed=0, replay_fn=None, known=None, level
     kbs = []
     try:
         for b in builders:
-            kbs.append(b(prop, tier))
+            r = b(prop, tier)
+            kbs.extend(r if isinstance(r, (list, tuple)) else [r])
     except chai2c.ExtractionBreak as e:
         print("EXTRACTION-BREAK property=%s: %s" % (prop, e))
         write_evidence_undecided(ev, prop, "extraction break: %s" % e, t0)
@@ -218,8 +222,9 @@ def run_property(prop, tier, builders, seed=0, replay_fn=None, known=None, level
     jobsl = []
     cmaps = {}
     try:
-        for kb in kbs:
-            cpath, obj, text = compile_kernel(kb, os.path.join(work, kb.kernel))
+        with cf.ThreadPoolExecutor(max_workers=jobs) as ex:
+            comp = list(ex.map(lambda kb: compile_kernel(kb, os.path.join(work, kb.kernel)), kbs))
+        for kb, (cpath, obj, text) in zip(kbs, comp):
             cmaps[kb.kernel] = clause_map(text)
             for t in kb.targets:
                 jobsl.append((kb, t, obj, os.path.join(work, kb.kernel)))
